@@ -59,9 +59,10 @@ def build(n, edges, ctxs, enum_leaves, nfiles, tag):
     body = {}
     for i in range(n):
         if i in leaves and enum_leaves and i % 2 == 1:
-            src = rg.enum_src(names[i], [("A",), ("B",)])
+            src = rg.enum_src(names[i], [("A",), ("B",)], derive_style=rg.DERIVE_STYLES[(i + n) % len(rg.DERIVE_STYLES)])
         else:
-            src = rg.struct_src(names[i], [("id", "i32")] + [("f%d" % k, rg.rust(ty)) for k, (j, ty) in enumerate(out_edges[i])])
+            src = rg.struct_src(names[i], [("id", "i32")] + [("f%d" % k, rg.rust(ty)) for k, (j, ty) in enumerate(out_edges[i])],
+                                derive_style=rg.DERIVE_STYLES[(i + len(edges)) % len(rg.DERIVE_STYLES)])
         body.setdefault("m%d.rs" % (i % nfiles), []).append(src)
     cmd = rg.command_src("root_%s" % tag.lower(), [("p%d" % i, names[i]) for i in range(n)], "Vec<%s>" % names[0])
     cmd += rg.command_src("opt_%s" % tag.lower(), [("o", "Option<Vec<%s>>" % names[n - 1])], names[n - 1])
